@@ -40,7 +40,7 @@ def run(ctx):
     q = ctx.tier == "quick"
     d = ctx.spec_copy("io")
     ctx.rule = ("G: every complete path of LimitReaderGen/TruncWriterGen (all call sizes x all answers of the wrapped "
-                "reader/writer; thin alphabet to depth 5/7, rich alphabet to depth 3/5, plus simulated long paths) replayed "
+                "reader/writer; thin alphabet to depth 5/7, rich alphabet to depth 3/4, plus simulated long paths) replayed "
                 "call by call on ioutil.LimitReader / ioutil.TruncatedWriter with a scripted, recording reader/writer; "
                 "T: seeded random histories (n <= 10^6) recorded from the real code and validated by TLC with IOTrace.tla. "
                 "distinct_nontrivial = distinct replayed paths with at least one call")
@@ -82,10 +82,10 @@ def run(ctx):
         wgen("wgen_rich_d3", rset(0, 4), rset(0, 5), '{"nil", "E1", "E2"}', 3)
     else:
         rgen("rgen_thin_d7", "{0, 1, 2}", "{0, 1, 3}", '{"nil", "EOF"}', 7)
-        rgen("rgen_mid_d5", "{0, 1, 2, 3}", "{0, 1, 2, 4}", ERRS3, 5)
-        rgen("rgen_rich_d4", rset(0, 4), rset(0, 5), ERRS4, 4)
+        rgen("rgen_thin_d5", "{0, 1, 2}", "{0, 1, 3}", ERRS3, 5)
+        rgen("rgen_rich_d3", rset(0, 4), rset(0, 5), ERRS4, 3)
         wgen("wgen_thin_d7", "{0, 1, 2, 3}", "{0, 1, 2, 4}", '{"nil", "E1"}', 7)
-        wgen("wgen_rich_d5", rset(0, 4), rset(0, 5), '{"nil", "E1", "E2"}', 5)
+        wgen("wgen_rich_d4", rset(0, 4), rset(0, 5), '{"nil", "E1", "E2"}', 4)
     exhaustive_n = count_lines(d / "reader_vectors.ndjson") + count_lines(d / "writer_vectors.ndjson")
 
     # 3. simulated long paths with a richer alphabet (every prefix is emitted and replayed).
@@ -93,12 +93,12 @@ def run(ctx):
               {"Limits": "{0, 1, 5, 8, 13}", "BufLens": rset(0, 9), "StreamLens": "{0, 4, 8, 13, 20}", "RErrs": ERRS4,
                "RMaxSteps": 24, "EmitAll": "TRUE"},
               invariants=["REmit"] + R_INV[1:])
-    ctx.tlc(d, "LimitReaderGen", "rsim.cfg", simulate=100 if q else 1000, depth=25, workers=4, label="reader-sim")
+    ctx.tlc(d, "LimitReaderGen", "rsim.cfg", simulate=100 if q else 600, depth=25, workers=4, label="reader-sim")
     write_cfg(d / "wsim.cfg", "WGSpec",
               {"WLimits": "{0, 1, 5, 8, 13}", "WriteLens": rset(0, 9), "WErrs": '{"nil", "E1", "E2"}',
                "WMaxSteps": 16, "EmitAll": "TRUE"},
               invariants=["WEmit"] + W_INV[1:])
-    ctx.tlc(d, "TruncWriterGen", "wsim.cfg", simulate=100 if q else 1000, depth=17, workers=4, label="writer-sim")
+    ctx.tlc(d, "TruncWriterGen", "wsim.cfg", simulate=100 if q else 600, depth=17, workers=4, label="writer-sim")
 
     ctx.vh(["c15", "replay-reader", d / "reader_vectors.ndjson", ctx.scratch / "reader.res"])
     s1 = ctx.collect(ctx.scratch / "reader.res")
